@@ -110,6 +110,16 @@ func (e *Explorer) Start() error {
 	return nil
 }
 
+// SetStepBudget sets the per-path step budget (0 = default).
+func (e *Explorer) SetStepBudget(n int) {
+	if n == 0 {
+		n = 2000000
+	}
+	for _, m := range e.machines {
+		m.Cfg.StepBudget = n
+	}
+}
+
 // SetTrace switches instruction tracing on all workers.
 func (e *Explorer) SetTrace(on bool) {
 	for _, m := range e.machines {
